@@ -1,7 +1,7 @@
 (* C05 -- results always reflect the current data, regions and links: never a stale cache.  Statements only. *)
 From Coq Require Import List Bool Arith.
 Import ListNotations.
-From GV Require Import gen.Gen_memo C01.Heap C01.Model C05.Model C05.Post C05.Lemmas.
+From GV Require Import gen.Gen_memo C01.Heap C01.Model C05.Model C05.Post C05.Memo C05.Lemmas.
 
 (* Over every history of evaluation requests and mutations (values updates with hub listeners evaluating during
    the broadcast, move_to, attribute assignment, link changes, state replacement), from any store coherent with
@@ -155,3 +155,44 @@ Theorem post_table_rows :
   (exists p, post_fn post_fn_memoize = Some p /\ safe_prog p = true).
 Proof. exact Lemmas.post_table_rows. Qed.
 Print Assumptions post_table_rows.
+
+(* ---- `memoize`, `clear_cache` (glue/core/decorators.py) translated statement by statement (Gen_memo.memoize_pre / memoize_wrapper / memoize_post /
+   clear_cache_body), run over a heap of dict OBJECTS (C05.Memo: the closure variable holds a reference, `__memoize_cache` holds a reference, `{}`
+   allocates, `.clear()` empties the object).  For every number of decorated functions and EVERY history of calls (hashable or not, `_make_key`
+   raising or not, the function raising or not), clear_cache(f) and clear_mask_caches(): the translated code returns exactly what the hand model's
+   per-function store returns (look up, else compute and store; unhashable -> call through; an exception is not remembered; clear_cache(f) = store f
+   becomes empty), and the dicts hold exactly the hand model's stores. *)
+Theorem memoize_refines_store : forall n h, exists st0 st',
+  decorate_all memoize_pre memoize_post n = Some st0 /\
+  run_hist memoize_wrapper clear_cache_body h st0 = Some (st', snd (spec_hist h (repeat [] n))) /\
+  m_dicts st' = fst (spec_hist h (repeat [] n)).
+Proof. exact Lemmas.memoize_refines_store. Qed.
+Print Assumptions memoize_refines_store.
+
+(* After every history: for every decorated function, the dict its wrapper consults IS the dict `__memoize_cache` refers to, i.e. the one
+   clear_cache / clear_mask_caches empty (however many distinct keys were stored in between). *)
+Theorem consulted_dict_is_cleared_dict : forall n h st0 st' rs,
+  decorate_all memoize_pre memoize_post n = Some st0 ->
+  run_hist memoize_wrapper clear_cache_body h st0 = Some (st', rs) ->
+  handles_ok st'.
+Proof. exact Lemmas.consulted_dict_is_cleared_dict. Qed.
+Print Assumptions consulted_dict_is_cleared_dict.
+
+(* clear_mask_caches in the current source is the work-list walk over the whole class tree calling clear_cache on every class's own to_mask;
+   clear_cache on every function leaves every store empty. *)
+Theorem clear_mask_caches_empties_every_store :
+  clear_mask_caches_walk = 1 /\
+  forall sp f, nth f (spec_clear_list (seq 0 (length sp)) sp) [] = [].
+Proof. exact Lemmas.clear_mask_caches_empties_every_store. Qed.
+Print Assumptions clear_mask_caches_empties_every_store.
+
+(* REFUTED for the bounded variant that re-binds the closure variable to a new dict when the old one is full (`nonlocal memo; if len(memo) >= N:
+   memo = {}`): three keys with N = 2, clear_mask_caches, the third request again -> the stale value, and the wrapper's dict is not the handle's. *)
+Theorem rebinding_refuted :
+  exists h st0 st' rs,
+    decorate_all memoize_pre memoize_post 1 = Some st0 /\
+    run_hist (wrapper_rebinding 2) clear_cache_body h st0 = Some (st', rs) /\
+    rs <> snd (spec_hist h (repeat [] 1)) /\
+    ~ handles_ok st'.
+Proof. exact Lemmas.rebinding_refuted. Qed.
+Print Assumptions rebinding_refuted.
